@@ -263,7 +263,7 @@ def rHat (x : AxiExtra α) (rn q : V3 α) (R : α) : α :=
 /-- permeabilities of the first pass in the axisymmetric solver -/
 def firstPassMuAxi (bp : MBlockProp α) : α × α :=
   let t := bp.lamFill
-  if bp.lamType == 0 then (bp.mux * t, bp.muy * t)
+  if bp.lamType == 0 then (bp.mux * t + (1 - t), bp.muy * t + (1 - t))
   else if bp.lamType == 1 then (bp.mux * t + (1 - t), bp.mux / (t + bp.mux * (1 - t)))
   else if bp.lamType == 2 then (bp.muy * t + (1 - t), bp.muy / (t + bp.muy * (1 - t)))
   else (1, 1)
